@@ -44,7 +44,10 @@ def pattern_cases(rng):
 def gen_cases(rng, n, tier):
     cases = pattern_cases(rng)
     while len(cases) < n:
-        cases.append(S.gen_mesh_case(rng, tier, "geom"))
+        c = S.gen_mesh_case(rng, tier, "geom")
+        if not c["vertices"]:
+            c["int32"] = False  # zero vertices with an int32 face array is C02's dtype clause (fixes/C02-empty-int32-faces.diff)
+        cases.append(c)
     return cases
 
 
